@@ -191,11 +191,14 @@ PROPS = {
         "rule": "each run: one scenario - a valid request, or exactly one named defect applied through the workload (revoked / expired credential, credential "
                 "about another subject, unknown scope, scope the wallet cannot fulfil), in transit (assertion signature or claim, submission definition id or "
                 "path, scope parameter, delivery delayed 20 s past the 5 s validity, duplicate delivery, delivery to another subject's token endpoint), or a "
-                "scope whose policy maps a credential field onto a reserved claim name - with bearer or DPoP tokens; issued tokens are introspected at issuance, "
+                "scope whose policy maps a credential field onto a reserved claim name - with bearer or DPoP tokens; the authorization-code grant (OpenID4VP user flow, "
+                "the workload plays the browser): untouched, wallet answer rewritten into two presentations of which the first does not verify, and the token "
+                "request of the code grant changed in transit (PKCE verifier extended / shortened / replaced by the challenge / of another session / removed / "
+                "empty; client id extended / shortened / the server's own / on another host); issued tokens are introspected at issuance, "
                 "at a seeded moment before expiry and after expiry. Distinct = (scenario, token type, variant) signatures; 'measurements' counts issued/refused per scenario.",
         "invariants": ["C02.issue", "C02.introspect"],
-        "assumptions": ["only the service-to-service (vp_token-bearer) grant; the authorization-code grant needs the browser-facing flow and is not driven",
-                        "single defects only; combinations of defects are not generated"],
+        "assumptions": ["single defects only; combinations of defects are not generated",
+                        "in the authorization-code grant the user is pre-authorised by the client application (no interactive wallet screens)"],
         "quick": {"budget_s": 75, "chunk": 20},
         "thorough": {"budget_s": 900, "chunk": 20, "minimise_s": 60},
     },
